@@ -45,7 +45,7 @@ PROPS = {
     },
     "C10": {
         "standins": ["interop-C10"],
-        "units": [wire_v3.units_emit, wire_v3.units_rx], "level": "other", "design_ref": "7.10",
+        "units": [wire_v3.units_emit, wire_v3.units_rx, seam.units_request_id], "level": "other", "design_ref": "7.10",
         "technique": VC + "V3MPM.encode and the USM request path compared with the RFC 3412/3414 term (flags, parameters, digest over "
                      "the message as sent); key derivation verified against RFC 3414 A.2 for every password length; incoming "
                      "authentic minimal-BER responses; x690 encode_length verified from its source",
@@ -60,14 +60,14 @@ PROPS = {
     },
     "C12": {
         "standins": ["interop-C12"],
-        "units": [wire_v3.units_emit, wire_v3.units_c12], "level": "other", "design_ref": "7.12",
+        "units": [wire_v3.units_emit, wire_v3.units_c12, seam.units_request_id], "level": "other", "design_ref": "7.12",
         "technique": VC + "discovery exchange and request construction executed from the real code; timeliness as an obligation over "
                      "a ghost agent clock (environment steps: clock advance by any amount, reboot)",
         "trusted_base": ["RFC 3414 section 3.2 (7b) acceptance window as the agent model"],
     },
     "C05": {
         "standins": ["wire-emit", "interop-C10"],
-        "units": [wire_community.units_c05, wire_v3.units_emit, x690_bytes.units_for(("C05",)), tables.units_walkcall], "level": "other", "design_ref": "7.5",
+        "units": [wire_community.units_c05, wire_v3.units_emit, x690_bytes.units_for(("C05",)), tables.units_walkcall, seam.units_request_id], "level": "other", "design_ref": "7.5",
         "technique": VC + "the real chain operation -> _send -> plug-in loaders -> message processing -> security model -> "
                      "PDU framing executed symbolically; the bytes handed to the sender are compared with an RFC-transcribed "
                      "term over a free BER term algebra",
@@ -165,7 +165,7 @@ PROPS = {
     "C07": {
         "standins": ["ops-C07"],
         "units": [api_ops.units, seam.units, wire_v3.units_emit, walks.units_propagate("C07", "puresnmp.exc:InvalidResponseId"),
-                  wire_community.units_rx, wire_community.units_family_switch],
+                  wire_community.units_rx, wire_community.units_family_switch, seam.units_request_id],
         "level": "other", "design_ref": "7.7",
         "technique": VC + "every clock read is a fresh symbolic integer; the id placed in the PDU must equal the id "
                      "validated (caller-side obligation at the _send seam); _send itself verified against its contract",
